@@ -11,8 +11,10 @@ decided by TLC (CsvBlocksTrace.tla) with a Python twin as cross-check.  pandas i
 from __future__ import annotations
 
 import csv
+import gc
 import glob
 import io
+import itertools
 import math
 import os
 import random
@@ -34,7 +36,7 @@ META = {
                   "read = whole parse for EVERY blocksize 1..len+1; seeded typed frames (<= 4 rows x <= 3 columns of ints, dyadic floats "
                   "k/8, strings with commas / quotes / spaces, NA) x every partitioning into <= 4 partitions x single_file x write_index "
                   "with the files to be written and the rows to come back. dask: read_csv(dtype=str) of the texts for every blocksize "
-                  "(quick: a seeded selection) with sample default/False; to_csv (single file, glob + name_function, directory) and "
+                  "(the shortest texts and a seeded selection; a few blocksizes for the others) with sample default/False; to_csv (single file, glob + name_function, directory) and "
                   "read_csv back (inferred / explicit dtypes, default / tiny blocksize). TLC decides every record.",
     "level_note": "NOT DECIDED: the parquet half (to_parquet / read_parquet need pyarrow, which is not installed and cannot be; "
                   "dask.dataframe itself is imported through an inert pyarrow shim). Trusted: TLC, the byte-level projection of frames, "
@@ -50,6 +52,7 @@ MENU = [[97, 44, 98], [97, 98], [49], [], [120, 34, 121], [98, 55], [97]]     # 
 STRMENU = ["a", "a,b", 'x"y', "b c"]                                             # CsvBlocks!StrMenu
 NAMES = ["a", "b", "c"]
 _TMP = None
+_SEQ = itertools.count()
 
 
 def _dir():
@@ -76,7 +79,8 @@ def observe_blocks(call):
     """dd.read_csv(file, blocksize=bs, dtype=str, keep_default_na=False) -> {raised, hdr, rows}"""
     from ..frames import dd, is_shim_error
     ddm = dd()
-    p = os.path.join(_dir(), "t.csv")
+    # a fresh name per call: dask names (and caches) expressions by path / size / mtime tokens
+    p = os.path.join(_dir(), "t%d.csv" % next(_SEQ))
     with open(p, "wb") as f:
         f.write(bytes(call["text"]))
     try:
@@ -200,7 +204,7 @@ def observe_roundtrip(call):
     from ..frames import dd, from_parts, is_shim_error, split_rows
     ddm = dd()
     fr, lay = call["fr"], call["lay"]
-    d = os.path.join(_dir(), "rt")
+    d = os.path.join(_dir(), "rt%d" % next(_SEQ))
     shutil.rmtree(d, ignore_errors=True)
     os.makedirs(d)
     try:
@@ -385,14 +389,15 @@ def plan(rng, texts, fcases, frames, all_bs_texts, ntext, nbs, nframe):
     return calls
 
 
-def core(ctx, calls, report, parallel=True):
+def collect(ctx, calls, parallel=True, prefix=""):
+    """run dask on every call and record: (records, owner)"""
     results = pmap(_work, calls, chunk=50) if parallel else [_work(c) for c in calls]
     recs, owner = [], {}
     for call, obs in results:
         if "skip" in obs:
             ctx.skip(obs["skip"])
             continue
-        rid = "r%d" % len(recs)
+        rid = "%sr%d" % (prefix, len(recs))
         if call["kind"] == "blocks":
             rec = {"id": rid, "kind": "blocks", "text": call["text"],
                    "obs": {"raised": obs["raised"], "hdr": obs["hdr"], "rows": obs["rows"]}}
@@ -404,6 +409,11 @@ def core(ctx, calls, report, parallel=True):
                       len(call["fr"]["rows"]) >= 2 and len(call["lay"]) >= 2)
         owner[rid] = (call, obs)
         recs.append(rec)
+    return recs, owner
+
+
+def decide(ctx, recs, owner, report):
+    """TLC decides every record, cross-checked by the Python twin; report(signature, what, replay, record id)"""
     tspec, tcfg = ctx.model(ctx.spec("frame", "CsvBlocksTrace.tla"), {})
     nviol = 0
     for lo in range(0, len(recs), 10000):
@@ -420,20 +430,25 @@ def core(ctx, calls, report, parallel=True):
             if tl:
                 nviol += 1
                 what = "TLC rejects a recorded %s call (%s)%s" % (rec["kind"], ", ".join(sorted(tl)), (": " + obs["msg"]) if obs.get("msg") else "")
-                report(classify(call, tl, obs), what, {"call": call, "observed": obs})
+                report(classify(call, tl, obs), what, {"call": call, "observed": obs}, rec["id"])
     return nviol, len(recs)
+
+
+def core(ctx, calls, report, parallel=True):
+    recs, owner = collect(ctx, calls, parallel)
+    return decide(ctx, recs, owner, lambda sig, what, rep, rid: report(sig, what, rep))
 
 
 def run(ctx):
     global _TMP
     _TMP = ctx.scratch
     rng = ctx.rng
-    frames = random_frames(rng, ctx.pick(40, 300), True)
+    frames = random_frames(rng, ctx.pick(40, 200), True)
     shapes = ctx.pick("{<<1, 3, 7>>, <<2, 1, 7>>, <<2, 2, 4>>, <<3, 1, 5>>}", "{<<1, 4, 7>>, <<2, 2, 7>>, <<3, 1, 7>>}")
     texts, fcases = export_cases(ctx, shapes, frames, 24, "design+cases")
     guard(texts, fcases, frames)
-    calls = plan(rng, texts, fcases, frames, all_bs_texts=ctx.pick(60, 10 ** 9), ntext=ctx.pick(450, 0), nbs=4,
-                 nframe=ctx.pick(1200, 25000))
+    calls = plan(rng, texts, fcases, frames, all_bs_texts=ctx.pick(60, 1500), ntext=ctx.pick(450, 10 ** 9), nbs=4,
+                 nframe=ctx.pick(1200, 8000))
     _, nrec = core(ctx, calls, ctx.violation)
     ctx.sample({"text": bytes(texts[len(texts) // 2]["e"]["text"]).decode(), "parse": "hdr %r rows %r" % (
         [bytes(x).decode() for x in texts[len(texts) // 2]["e"]["hdr"]],
@@ -488,32 +503,40 @@ def selftest(ctx):
     frames = random_frames(rng, 14, True)
     texts, fcases = export_cases(ctx, "{<<1, 3, 7>>, <<2, 1, 7>>}", frames, 16, "selftest-cases")
     guard(texts, fcases, frames)
-    calls = plan(random.Random(4), texts, fcases, frames, all_bs_texts=25, ntext=60, nbs=3, nframe=150)
-    found = []
-
-    def report(sig, what, rep):
-        found.append(sig)
+    calls = plan(random.Random(4), texts, fcases, frames, all_bs_texts=8, ntext=30, nbs=3, nframe=60)
+    trials, allrecs, allowner = [], [], {}
 
     def trial(name, cm, expect=True):
-        nonlocal ok
-        del found[:]
+        # the records of all mutants are decided by ONE TLC run at the end
+        tag = "m%d-" % len(trials)
+        gc.collect()               # expressions built under the previous mutant must not be reused (dask caches them by name)
         with cm:
-            core(ctx, calls, report, parallel=False)
-        new = [f for f in found if f not in ctx.known]
-        good = (len(new) > 0) == expect
-        ok &= good
-        print("mutant %-62s %s (%d violations) %s" % (name, ("DETECTED" if new else "no alarm") + ("" if good else "  <-- WRONG"),
-                                                     len(new), sorted(set(new))[:2]))
+            recs, owner = collect(ctx, calls, parallel=False, prefix=tag)
+        trials.append((tag, name, expect))
+        allrecs.extend(recs)
+        allowner.update(owner)
+
     import contextlib
     trial("(none: unchanged tree, only known findings may appear)", contextlib.nullcontext(), expect=False)
-    trial("read_bytes: block offsets shifted by one byte", source_mutant(
-        BYC, "read_bytes", "off.append(int(place))", "off.append(int(place) + 1)"))
+    trial("benign: read_bytes block offsets shifted by one byte", source_mutant(
+        BYC, "read_bytes", "off.append(int(place))", "off.append(int(place) + 1)"), expect=False)
+    trial("read_pandas: header re-attached without its line terminator", source_mutant(
+        CSV, "read_pandas", 'header = b"" if header is None else parts[firstrow] + b_lineterminator',
+        'header = b"" if header is None else parts[firstrow]'))
     trial("_read_csv: header not re-attached to later blocks", source_mutant(
         CSV, "_read_csv", "            write_header = True", "            write_header = False"))
     trial("to_csv: single_file appends every partition with its header", source_mutant(
         CSV, "to_csv", 'kwargs["header"] = False\n        for d in dfs[1:]:', 'for d in dfs[1:]:'))
     trial("to_csv: the last partition is not written (multi-file)", source_mutant(
         CSV, "to_csv", "for d, f in zip(dfs[1:], files[1:])", "for d, f in zip(dfs[1:-1], files[1:-1])"))
+    found = {}
+    decide(ctx, allrecs, allowner, lambda sig, what, rep, rid: found.setdefault(rid.split("-")[0] + "-", []).append(sig))
+    for tag, name, expect in trials:
+        new = [f for f in found.get(tag, []) if f not in ctx.known]
+        good = (len(new) > 0) == expect
+        ok &= good
+        print("mutant %-62s %s (%d violations on %d calls) %s" % (
+            name, ("DETECTED" if new else "no alarm") + ("" if good else "  <-- WRONG"), len(new), len(calls), sorted(set(new))[:2]))
     tspec, tcfg = ctx.model(ctx.spec("frame", "CsvBlocksTrace.tla"), {})
     text = list(b'a,b\n1,"x,y"\n2,z\n')
     fr = {"types": [1, 3], "names": [[97], [98]], "rows": [{"idx": 4, "cells": [[1, 7], [3, 2]]}, {"idx": 2, "cells": [[1, 0], [0, 0]]}]}
